@@ -630,22 +630,20 @@ def replay_density():
 
 
 # ---- shared obligation: SP2 purification multiplies the full packed Fock matrix: it only returns (and returns a symmetric idempotent density) if packing preserves the physical block exactly ----
-from . import C05 as _C05_mod  # noqa: E402
-
-
-@obligation(PID, "h", title="[shared with C05.g] " + [e for e in __import__("engine.ob", fromlist=["REGISTRY"]).REGISTRY["C05"] if e[1] is _C05_mod.ob_g][0][3])
+@obligation(PID, "h", title='[shared with C05.g] PM6 layout: packd moves entry (map(i), map(j)) of the 9-slot-per-atom matrix to (i, j) for every pair of physical orbitals (so symmetric matrices stay symmetric), and unpackd(packd(x)) is the identity on the physical block, for single matrices and heterogeneous batches')
 def ob_h_shared(ob):
     """SP2 purification multiplies the full packed Fock matrix: it only returns (and returns a symmetric idempotent density) if packing preserves the physical block exactly"""
+    from . import C05 as _m  # imported lazily: the harness modules share obligations in both directions
+
     ob.note("this obligation is the one registered as C05.g; it is also decided here because SP2 purification multiplies the full packed Fock matrix: it only returns (and returns a symmetric idempotent density) if packing preserves the physical block exactly")
-    _C05_mod.ob_g(ob)
+    _m.ob_g(ob)
 
 
 # ---- shared obligation: the converged density has the trace 2 nocc of its own molecule only if each density step is fed that molecule's occupation number ----
-from . import C04 as _C04_mod  # noqa: E402
-
-
-@obligation(PID, "i", title="[shared with C04.g] " + [e for e in __import__("engine.ob", fromlist=["REGISTRY"]).REGISTRY["C04"] if e[1] is _C04_mod.ob_g][0][3])
+@obligation(PID, "i", title='[shared with C04.g] SCF drivers under partial convergence (fixed mixing, adaptive mixing, adaptive + Pulay): at every density step the Fock matrices of the still-active molecules arrive together with the atom counts and occupation numbers of the same molecules, and the convergence flags returned are those of the schedule — for every order in which the molecules of a batch converge')
 def ob_i_shared(ob):
     """the converged density has the trace 2 nocc of its own molecule only if each density step is fed that molecule's occupation number"""
+    from . import C04 as _m  # imported lazily: the harness modules share obligations in both directions
+
     ob.note("this obligation is the one registered as C04.g; it is also decided here because the converged density has the trace 2 nocc of its own molecule only if each density step is fed that molecule's occupation number")
-    _C04_mod.ob_g(ob)
+    _m.ob_g(ob)
